@@ -94,6 +94,12 @@ def model_histories(ctx, rnd, n_sample, depth_cfg="MC_HostExport"):
             g = copy.deepcopy(h)
             g["init"]["files"] = [101, 150]
             extra.append(g)
+    # ... and a tape of arbitrary bytes that is exactly as long as a disk image (the tool tries its disk reader on such a file first): it is a tape all the same
+    for h in first:
+        if h["init"]["kind"] == "cas" and h["init"]["big"]:
+            g = copy.deepcopy(h)
+            g["init"]["files"] = [160, 161, 162, 163]
+            extra.append(g)
     return first + extra + rest[:n_sample], len(hists)
 
 
